@@ -3,6 +3,7 @@ package main
 import (
 	"bytes"
 	"fmt"
+	predis "github.com/samaritan-proxy/samaritan/pb/config/protocol/redis"
 	"math/rand"
 	"net"
 	"os"
@@ -504,6 +505,12 @@ func c11(r *ev.Run) {
 	if os.Getenv("VERIF_C11_ONLY") == "" || os.Getenv("VERIF_C11_ONLY") == "poison" {
 		c11Poison(r)
 	}
+	if os.Getenv("VERIF_C11_ONLY") == "" || os.Getenv("VERIF_C11_ONLY") == "replica-less" {
+		c11ReplicaLessReads(r)
+		if os.Getenv("VERIF_C11_ONLY") == "replica-less" {
+			return
+		}
+	}
 
 	rnd := rand.New(rand.NewSource(r.Seed + 11))
 	thorough := r.Tier == "thorough"
@@ -844,4 +851,82 @@ func c11Poison(r *ev.Run) {
 	r.Case("poison/null-bulk")
 	r.Require("poison_requests_sent", 20)
 	r.Require("victim_requests_during_poison", 50)
+}
+
+// c11ReplicaLessReads: CLUSTER NODES answers that are well-formed but leave a master without any usable replica (none listed, or
+// only replicas flagged fail / noaddr / handshake) while the service reads from replicas: reads of that master's slots must be
+// answered, the process must survive.
+func c11ReplicaLessReads(r *ev.Run) {
+	for _, strategy := range []predis.ReadStrategy{predis.ReadStrategy_REPLICA, predis.ReadStrategy_BOTH} {
+		for _, layout := range []string{"no-replica-listed", "replicas-flagged-fail", "replicas-flagged-noaddr", "replicas-in-handshake"} {
+			s, err := startSUT(r, false, 600000, 20)
+			if err != nil {
+				r.Internal("start sut: %v", err)
+				return
+			}
+			cl, err := fakecluster.New(2, 0)
+			if err != nil {
+				s.Close()
+				r.Internal("fakecluster: %v", err)
+				return
+			}
+			cl.AssignContiguous()
+			cl.LogArgs = false
+			for _, n := range cl.Nodes {
+				n := n
+				n.Handler = func(c *fakecluster.Conn, args [][]byte) (fakecluster.Reply, bool) {
+					if len(args) >= 2 && strings.EqualFold(string(args[0]), "cluster") && strings.EqualFold(string(args[1]), "nodes") && layout != "no-replica-listed" {
+						body := n.ClusterNodesLocked()
+						flag := map[string]string{"replicas-flagged-fail": "slave,fail", "replicas-flagged-noaddr": "slave,noaddr", "replicas-in-handshake": "slave,handshake"}[layout]
+						for i, m := range cl.Nodes {
+							// one replica line per master, at an address nobody listens on
+							body += fmt.Sprintf("%040x 127.0.0.1:%d@%d %s %s 0 1 1 connected\n", 900+i, 1+i, 10001+i, flag, m.ID)
+						}
+						return fakecluster.Reply{Raw: resp.Encode(resp.BS(body))}, true
+					}
+					return fakecluster.Reply{}, false
+				}
+			}
+			svc, err := startRedisSvc(s, cl, cl.Addrs(), RedisOpts{ReadStrategy: strategy, ConnTimeout: 300 * time.Millisecond})
+			ok := err == nil && svc.WaitRouting(1, 10*time.Second)
+			if ok {
+				conn, err := svc.Dial()
+				if err == nil {
+					bad := ""
+					for i := 0; i < 40 && bad == ""; i++ {
+						k := fmt.Sprintf("rl%d", i)
+						if _, err := conn.DoS(3*time.Second, "SET", k, "v"); err != nil {
+							bad = "SET " + k + ": " + err.Error()
+							break
+						}
+						v, err := conn.DoS(3*time.Second, "GET", k)
+						if err != nil {
+							bad = "GET " + k + ": " + err.Error()
+						} else if v.Kind == resp.Error && layout == "no-replica-listed" {
+							bad = "GET " + k + " -> " + v.String()
+						}
+					}
+					conn.Close()
+					w := map[string]interface{}{"read_strategy": strategy.String(), "cluster_nodes_layout": layout, "first_problem": bad}
+					if bad != "" {
+						time.Sleep(300 * time.Millisecond) // a dying process closes its connections before it is reaped
+					}
+					if !s.Alive() {
+						w["crash"] = s.CrashLine()
+						w["log_tail"] = s.LogTail(3000)
+						r.Violation("C11:crash:replica-less-master:"+layout, "the proxy process died reading from a master without usable replica: "+s.CrashLine(), w)
+					} else if bad != "" {
+						r.Violation("C11:silence:replica-less-master:"+layout, "a read of a master without usable replica was not answered (the master itself is reachable)", w)
+					} else {
+						r.Count("replica_less_layouts_served", 1)
+					}
+				}
+			} else {
+				r.Inconclusive("replica-less:service-not-up")
+			}
+			r.Case("replica-less/" + strategy.String() + "/" + layout)
+			s.Close()
+			cl.Close()
+		}
+	}
 }
